@@ -1,11 +1,29 @@
-//! C04 – finishing or dropping a bar always paints its final state: finish-heavy histories that
-//! exhaust every limiter right before finishing; standalone bars and MultiProgress members.
-use verif_harness::spy::TOp;
+//! C04 – finishing or dropping a bar always paints its final state.
+//!
+//! Generators: (a) a single bar on a 1/20/255 Hz terminal: 25-45 zero-gap ordinary updates (both
+//! limiters exhausted), then one of finish / finish_with_message / finish_and_clear / abandon /
+//! abandon_with_message / finish_using_style / drop (every stored ProgressFinish), then more
+//! calls and the drop; (b) MultiProgress histories with bursts, finishes and drops of all bars
+//! in random order; (c) iterator-driven completion: `for _ in pb.wrap_iter(..)` executed on the
+//! implementation, every `next()` recorded as one op (Some => inc(1), None => finish_using_style)
+//! and compared with the model like any other history.
+//! Oracle (independent of the model):
+//!   * the final state: position = length (when known) for the finish family and unchanged for
+//!     the abandon family, the supplied message, is_finished(),
+//!   * the finishing call on a visible standalone bar paints, and what it paints (replayed on
+//!     a fresh emulated screen) is exactly the rendering of that final state - nothing for the
+//!     clearing variant - however exhausted the limiters are,
+//!   * dropping an already finished standalone bar makes no TermLike call,
+//!   * MultiProgress members: the screen oracle of sysoracle.rs (forced draws paint; the
+//!     screen shows the log, then the items in logical order; visibly finished dropped bars
+//!     stay, in order, until a println/clear/suspend/remove intervenes).
+use indicatif::{ProgressBar, ProgressDrawTarget, ProgressFinish};
+use verif_harness::spy::{Spy, TOp};
 use verif_harness::sysoracle::*;
 use verif_harness::sysrun::*;
 use verif_harness::*;
 
-/// single bar on a 1 Hz target: a burst of ordinary updates, then one finish variant / drop
+/// single bar on a rate-limited target: a burst of ordinary updates, then one finish variant / drop
 fn gen_single(r: &mut Rng) -> Case {
     let w = *r.pick(&[3u16, 5, 10, 40]);
     let wu = w as usize;
@@ -43,16 +61,218 @@ fn gen_single(r: &mut Rng) -> Case {
         if r.chance(1, 2) {
             ops.push((t, Op::Tick(0)));
         }
+        if r.chance(1, 4) {
+            ops.push((t, Op::Finish(0, gen_fin_short(r, wu)))); // finishing twice
+        }
         ops.push((t + 1, Op::Drop(0)));
     }
     Case { w, h: 60, fail_at: vec![], fail_from: None, mp: TInit::Hidden, bars: vec![bar], ops }
+}
+
+fn fin_of(f: &Fin) -> ProgressFinish {
+    match f {
+        Fin::AndLeave => ProgressFinish::AndLeave,
+        Fin::WithMessage(m) => ProgressFinish::WithMessage(m.clone().into()),
+        Fin::AndClear => ProgressFinish::AndClear,
+        Fin::Abandon => ProgressFinish::Abandon,
+        Fin::AbandonWithMessage(m) => ProgressFinish::AbandonWithMessage(m.clone().into()),
+    }
+}
+
+/// Iterator-driven completion on the implementation.  Returns the equivalent Case (ops as the
+/// model sees them) and the per-`next()` observations.
+fn run_iter_case(r: &mut Rng) -> (Case, Vec<StepObs>) {
+    use indicatif::verif_clock as vc;
+    let w = *r.pick(&[5u16, 10, 40]);
+    let wu = w as usize;
+    let items = r.below(30);
+    let bar = BarInit {
+        len: match r.below(4) {
+            0 => None,
+            1 => Some(items + r.below(5)), // the iterator ends before the length is reached
+            _ => Some(items),
+        },
+        fin: gen_fin_short(r, wu),
+        tmpl: gen_small_tmpl(r, wu, 0),
+        target: TInit::Term(Some(*r.pick(&[1u8, 20]))),
+    };
+    vc::set_auto_step_ns(0);
+    vc::set_clock_ns(vc::ORIGIN_NS);
+    let spy = Spy::new(w, 60);
+    let pb = ProgressBar::with_draw_target(bar.len, ProgressDrawTarget::term_like_with_hz(Box::new(spy.clone()), match bar.target {
+        TInit::Term(Some(h)) => h,
+        _ => 20,
+    }))
+    .with_finish(fin_of(&bar.fin));
+    pb.set_style(style_of(&bar.tmpl));
+    let get = |pb: &ProgressBar| Getters { pos: pb.position(), len: pb.length(), finished: pb.is_finished(), msg: pb.message(), prefix: pb.prefix() };
+    let mut ops = vec![];
+    let mut obs = vec![];
+    let mut t = 0u64;
+    let finished_early = r.chance(1, 6);
+    let mut it = pb.wrap_iter(0..items);
+    loop {
+        t += *r.pick(&[0u64, 0, 1, 1000, 60_000_000]);
+        if finished_early && ops.len() as u64 == items / 2 {
+            // the bar is finished by hand in the middle: next() == None must not finish again
+            vc::set_clock_ns(vc::ORIGIN_NS + t);
+            let res = catch(|| pb.abandon());
+            ops.push((t, Op::Finish(0, Fin::Abandon)));
+            obs.push(StepObs { emitted: spy.take(), ok: true, getters: vec![Some(get(&pb))], panic: res.err() });
+        }
+        vc::set_clock_ns(vc::ORIGIN_NS + t);
+        let item = catch(|| it.next());
+        let emitted = spy.take();
+        match item {
+            Err(e) => {
+                ops.push((t, Op::Inc(0, 1)));
+                obs.push(StepObs { emitted, ok: true, getters: vec![], panic: Some(e) });
+                break;
+            }
+            Ok(Some(_)) => {
+                ops.push((t, Op::Inc(0, 1)));
+                obs.push(StepObs { emitted, ok: true, getters: vec![Some(get(&pb))], panic: None });
+            }
+            Ok(None) => {
+                // ProgressBarIter::next (src/iter.rs:120-130): finish_using_style unless finished
+                if !obs.last().and_then(|o: &StepObs| o.getters.first().cloned().flatten()).map_or(false, |g| g.finished) {
+                    ops.push((t, Op::FinishUsingStyle(0)));
+                    obs.push(StepObs { emitted, ok: true, getters: vec![Some(get(&pb))], panic: None });
+                } else {
+                    // already finished: a no-op in the model (reset_eta draws nothing, changes nothing)
+                    ops.push((t, Op::ResetEta(0)));
+                    obs.push(StepObs { emitted, ok: true, getters: vec![Some(get(&pb))], panic: None });
+                }
+                break;
+            }
+        }
+    }
+    drop(it);
+    // the last handle goes away: nothing may be drawn (the bar is finished)
+    vc::set_clock_ns(vc::ORIGIN_NS + t + 1);
+    let res = catch(move || drop(pb));
+    ops.push((t + 1, Op::Drop(0)));
+    obs.push(StepObs { emitted: spy.take(), ok: true, getters: vec![None], panic: res.err() });
+    (Case { w, h: 60, fail_at: vec![], fail_from: None, mp: TInit::Hidden, bars: vec![bar], ops }, obs)
+}
+
+fn expected_final(pre: &Getters, k: &Fin) -> Getters {
+    let mut g = pre.clone();
+    match k {
+        Fin::AndLeave | Fin::AndClear => {
+            if let Some(l) = g.len {
+                g.pos = l
+            }
+        }
+        Fin::WithMessage(m) => {
+            if let Some(l) = g.len {
+                g.pos = l
+            }
+            g.msg = m.clone();
+        }
+        Fin::Abandon => {}
+        Fin::AbandonWithMessage(m) => g.msg = m.clone(),
+    }
+    g.finished = true;
+    g
+}
+
+/// rows a frame occupies on a terminal of width w (spinner of a finished bar is 'X')
+fn expected_rows(tmpl: &[TPart], g: &Getters, cleared: bool, w: usize) -> Vec<String> {
+    if cleared {
+        return vec![];
+    }
+    let mut rows: Vec<String> = render_expected(tmpl, g)
+        .iter()
+        .flat_map(|l| wrap_rows(&l.replace('\u{1}', "X"), w))
+        .collect();
+    while rows.last().map_or(false, |r| r.is_empty()) {
+        rows.pop();
+    }
+    rows
+}
+
+/// The C04 oracle for standalone bars on top of the screen oracle: final state + final frame.
+fn check_standalone(s: &mut Session, case: &Case, obs: &[StepObs], desc: &str) {
+    let nb = case.bars.len();
+    let mut tmpl: Vec<Vec<TPart>> = case.bars.iter().map(|b| b.tmpl.clone()).collect();
+    let mut cur: Vec<Getters> = case
+        .bars
+        .iter()
+        .map(|b| Getters { pos: 0, len: b.len, finished: false, msg: String::new(), prefix: String::new() })
+        .collect();
+    let mut standalone: Vec<bool> = case.bars.iter().map(|b| matches!(b.target, TInit::Term(_))).collect();
+    let mut cleared = vec![false; nb];
+    for ((_, op), o) in case.ops.iter().zip(obs.iter()) {
+        if o.panic.is_some() {
+            break;
+        }
+        let fin_kind: Option<(usize, Fin, bool)> = match op {
+            Op::Finish(b, k) => Some((*b, k.clone(), false)),
+            Op::FinishUsingStyle(b) => Some((*b, case.bars[*b].fin.clone(), false)),
+            Op::Drop(b) if !cur[*b].finished => Some((*b, case.bars[*b].fin.clone(), true)),
+            _ => None,
+        };
+        match op {
+            Op::SetStyle(b, t) => tmpl[*b] = t.clone(),
+            Op::Insert(_, b) | Op::Remove(b) => standalone[*b] = false,
+            Op::Reset(b) => cleared[*b] = false,
+            _ => {}
+        }
+        if let Some((b, k, is_drop)) = fin_kind {
+            let want = expected_final(&cur[b], &k);
+            cleared[b] = matches!(k, Fin::AndClear);
+            if !is_drop {
+                match o.getters[b].as_ref() {
+                    Some(g) if !g.finished => s.fail("not-finished-after-finish", format!("is_finished() is false after {:?}", op), desc.to_string()),
+                    Some(g) if *g != want => s.fail(
+                        "finish-final-state-wrong",
+                        format!("after {:?}: getters {:?}, the final state defined by the finish variant is {:?}", op, g, want),
+                        desc.to_string(),
+                    ),
+                    _ => {}
+                }
+            }
+            if standalone[b] {
+                if !o.emitted.iter().any(|x| *x == TOp::Flush) {
+                    s.fail("finish-not-painted", format!("{:?} made no complete draw (emitted {:?})", op, o.emitted), desc.to_string());
+                } else if case.h as usize >= 50 {
+                    let mut vt = Vt::new(case.w, case.h);
+                    vt.feed(&o.emitted);
+                    let got = vt.rows();
+                    let exp = expected_rows(&tmpl[b], &want, cleared[b], case.w as usize);
+                    s.count(if is_drop { "final_frames_checked:drop" } else { "final_frames_checked:finish" });
+                    if got != exp {
+                        s.fail(
+                            "finish-frame-wrong",
+                            format!("{:?} painted rows {:?}; the final state {:?} renders as {:?}", op, got, want, exp),
+                            desc.to_string(),
+                        );
+                    }
+                }
+            }
+            if is_drop {
+                cur[b] = want;
+            }
+        } else if let Op::Drop(b) = op {
+            // already finished
+            if standalone[*b] && !o.emitted.is_empty() {
+                s.fail("drop-of-finished-bar-draws", format!("{:?} on a finished standalone bar emitted {:?}", op, o.emitted), desc.to_string());
+            }
+        }
+        for (b, g) in o.getters.iter().enumerate() {
+            if let Some(g) = g {
+                cur[b] = g.clone();
+            }
+        }
+    }
 }
 
 fn main() {
     let a = args();
     let mut s = Session::new(&a, "C04", COQ_HEADER, COQ_CASE_TY, COQ_CHECKER);
     s.shard_size = 120;
-    s.rule = "finish-heavy histories: (a) a single bar on a 1/20/255 Hz target, 25-45 zero-gap ordinary updates (both limiters exhausted), then finish/finish_with_message/finish_and_clear/abandon/abandon_with_message/finish_using_style/drop with every stored ProgressFinish, then drop; (b) MultiProgress histories with bursts, finishes and drops of all bars in random order; oracle: the finishing call paints, the painted frame is the final state, is_finished() afterwards, dropping a finished bar changes nothing on screen, kept bars stay in order; non-trivial = contains a finish/abandon/drop after at least 10 ops; distinct = distinct case text".into();
+    s.rule = "finish-heavy histories: (a) a single bar on a 1/20/255 Hz target, 25-45 zero-gap ordinary updates (both limiters exhausted), then finish/finish_with_message/finish_and_clear/abandon/abandon_with_message/finish_using_style/drop with every stored ProgressFinish, more calls, then drop; (b) MultiProgress histories with bursts, finishes and drops of all bars in random order; (c) iterator-driven completion (ProgressBarIter::next recorded call by call); oracle: final state, the finishing call paints exactly the rendering of the final state, is_finished() afterwards, dropping a finished bar makes no call, kept bars stay in order (screen oracle); non-trivial = contains a finish/abandon/drop after at least 10 ops (iterator: at least 3 items); distinct = distinct case text".into();
     let mut r = Rng::new(a.seed);
     let n = if a.thorough { 6000 } else if a.extended { 3000 } else { 500 };
     let mut cases = vec![];
@@ -71,39 +291,32 @@ fn main() {
             cases.push(gen_multi_case(&mut r, &cfg));
         }
     }
-    // C04-specific checks on top of the screen oracle
     for case in &cases {
         let obs = run_case(case);
-        let desc = describe(case);
-        let mut fin_before = vec![false; case.bars.len()];
-        for ((_, op), o) in case.ops.iter().zip(obs.iter()) {
-            if o.panic.is_some() {
-                break;
-            }
-            match op {
-                Op::Finish(b, _) | Op::FinishUsingStyle(b) => {
-                    if o.getters[*b].as_ref().map_or(false, |g| !g.finished) {
-                        s.fail("not-finished-after-finish", format!("is_finished() is false after {:?}", op), desc.clone());
-                    }
-                }
-                Op::Drop(b) if fin_before[*b] => {
-                    // standalone: no terminal call at all; member: no visible change is checked by the screen oracle
-                    if matches!(case.bars[*b].target, TInit::Term(_)) && !o.emitted.is_empty() {
-                        s.fail("drop-of-finished-bar-draws", format!("{:?} on a finished standalone bar emitted {:?}", op, o.emitted), desc.clone());
-                    }
-                }
-                _ => {}
-            }
-            for (b, g) in o.getters.iter().enumerate() {
-                if let Some(g) = g {
-                    fin_before[b] = g.finished;
-                }
-            }
-            let _ = TOp::Flush;
-        }
+        check_standalone(&mut s, case, &obs, &describe(case));
     }
     run_sys_cases(&mut s, &cases, &|c, _| {
         c.ops.len() >= 10 && c.ops.iter().any(|(_, o)| matches!(o, Op::Finish(..) | Op::FinishUsingStyle(_) | Op::Drop(_)))
     });
+    // (c) iterator-driven completion
+    for _ in 0..n / 4 {
+        let (case, obs) = run_iter_case(&mut r);
+        let desc = format!("iterator {}", describe(&case));
+        if let Some(p) = obs.iter().find_map(|o| o.panic.clone()) {
+            s.fail("panic", p, desc.clone());
+        }
+        check_standalone(&mut s, &case, &obs, &desc);
+        let fin_ops = case.ops.iter().filter(|(_, o)| matches!(o, Op::FinishUsingStyle(_) | Op::Finish(..))).count();
+        if fin_ops != 1 {
+            s.fail("iterator-did-not-finish-once", format!("{fin_ops} finishing calls observed"), desc.clone());
+        }
+        if obs.len() >= 2 && !obs[obs.len() - 2].getters.first().cloned().flatten().map_or(false, |g| g.finished) {
+            s.fail("not-finished-after-finish", "is_finished() is false after the iterator returned None".into(), desc.clone());
+        }
+        s.count("iterator_runs");
+        s.count_n("iterator_items", case.ops.iter().filter(|(_, o)| matches!(o, Op::Inc(..))).count() as u64);
+        let nt = case.ops.len() >= 5;
+        s.case(coq_case(&case, &obs), desc, nt);
+    }
     s.finish();
 }
